@@ -133,9 +133,12 @@ Proofs/Promise.vos Proofs/Promise.vok Proofs/Promise.required_vos: Proofs/Promis
 Proofs/Trampoline.vo Proofs/Trampoline.glob Proofs/Trampoline.v.beautified Proofs/Trampoline.required_vo: Proofs/Trampoline.v Model/Term.vo Model/Unify.vo Model/Clause.vo Model/Machine.vo Proofs/Promise.vo
 Proofs/Trampoline.vio: Proofs/Trampoline.v Model/Term.vio Model/Unify.vio Model/Clause.vio Model/Machine.vio Proofs/Promise.vio
 Proofs/Trampoline.vos Proofs/Trampoline.vok Proofs/Trampoline.required_vos: Proofs/Trampoline.v Model/Term.vos Model/Unify.vos Model/Clause.vos Model/Machine.vos Proofs/Promise.vos
-Props/C01.vo Props/C01.glob Props/C01.v.beautified Props/C01.required_vo: Props/C01.v Model/Term.vo Model/Unify.vo Model/Clause.vo Model/Machine.vo Proofs/Promise.vo Proofs/Trampoline.vo
-Props/C01.vio: Props/C01.v Model/Term.vio Model/Unify.vio Model/Clause.vio Model/Machine.vio Proofs/Promise.vio Proofs/Trampoline.vio
-Props/C01.vos Props/C01.vok Props/C01.required_vos: Props/C01.v Model/Term.vos Model/Unify.vos Model/Clause.vos Model/Machine.vos Proofs/Promise.vos Proofs/Trampoline.vos
+Proofs/FuelMono.vo Proofs/FuelMono.glob Proofs/FuelMono.v.beautified Proofs/FuelMono.required_vo: Proofs/FuelMono.v Model/Term.vo Model/Unify.vo Model/Clause.vo Model/Machine.vo
+Proofs/FuelMono.vio: Proofs/FuelMono.v Model/Term.vio Model/Unify.vio Model/Clause.vio Model/Machine.vio
+Proofs/FuelMono.vos Proofs/FuelMono.vok Proofs/FuelMono.required_vos: Proofs/FuelMono.v Model/Term.vos Model/Unify.vos Model/Clause.vos Model/Machine.vos
+Props/C01.vo Props/C01.glob Props/C01.v.beautified Props/C01.required_vo: Props/C01.v Model/Term.vo Model/Unify.vo Model/Clause.vo Model/Machine.vo Proofs/Promise.vo Proofs/Trampoline.vo Proofs/FuelMono.vo
+Props/C01.vio: Props/C01.v Model/Term.vio Model/Unify.vio Model/Clause.vio Model/Machine.vio Proofs/Promise.vio Proofs/Trampoline.vio Proofs/FuelMono.vio
+Props/C01.vos Props/C01.vok Props/C01.required_vos: Props/C01.v Model/Term.vos Model/Unify.vos Model/Clause.vos Model/Machine.vos Proofs/Promise.vos Proofs/Trampoline.vos Proofs/FuelMono.vos
 Props/C03.vo Props/C03.glob Props/C03.v.beautified Props/C03.required_vo: Props/C03.v Model/Term.vo Model/Unify.vo Model/Clause.vo Model/Machine.vo Proofs/Promise.vo Proofs/Trampoline.vo Model/Boot.vo
 Props/C03.vio: Props/C03.v Model/Term.vio Model/Unify.vio Model/Clause.vio Model/Machine.vio Proofs/Promise.vio Proofs/Trampoline.vio Model/Boot.vio
 Props/C03.vos Props/C03.vok Props/C03.required_vos: Props/C03.v Model/Term.vos Model/Unify.vos Model/Clause.vos Model/Machine.vos Proofs/Promise.vos Proofs/Trampoline.vos Model/Boot.vos
